@@ -235,10 +235,20 @@ func VerifH_C19_esSplitOversize() {
 	p := verifPlugin(true)
 	verifReqs = nil
 	var accepted [][]byte
+	// optionally the request carrying the last document fails once with a retryable error
+	failLast := vf.Choose("request-with-the-last-document-gets-500", 2) == 1 && big != n-1
+	lastDoc := events[n-1].Root.EncodeToString()
 	verifAnswer = func(body []byte) (int, error) {
 		for _, l := range verifLines(body) {
 			if len(l) > 8 && string(l[len(l)-11:]) == `"big":true}` {
 				return 413, errVerif413
+			}
+		}
+		if failLast {
+			for _, l := range verifLines(body) {
+				if string(l) == lastDoc {
+					return 500, errVerif500
+				}
 			}
 		}
 		accepted = append(accepted, append([]byte(nil), body...))
@@ -248,6 +258,9 @@ func VerifH_C19_esSplitOversize() {
 	pipeline.VerifBatchMarkIterable(batch, true)
 	var wd pipeline.WorkerData
 	err := p.out(&wd, batch)
+	if failLast {
+		vf.Assert(err != nil, "retryable-failure-of-a-part-is-reported")
+	}
 	if err != nil {
 		return // retried as a whole
 	}
